@@ -142,7 +142,12 @@ let run_main () =
   let bin = Sys.argv.(2) in
   let max_steps = int_of_string Sys.argv.(3) in
   let max_cycles = if Array.length Sys.argv > 4 then int_of_string Sys.argv.(4) else 0 in
-  let words = image_words (read_file bin) in
+  (* the image as the MODEL of Processor::load() reads it (Loader.load_file, extracted); no second parser *)
+  let file = read_file bin in
+  let fbytes = SL.init (Stdlib.String.length file) (fun i -> zi (Char.code (Stdlib.String.get file i))) in
+  let words = match Loader.load_file fbytes with
+    | Some (ws, _) -> SL.map iz ws
+    | None -> P.printf "END loadreject rc=1 steps=0 h=0 pc=0 a=0 b=0 o=0\nMARKS\nOUT 0\nCONSUMED 0\n"; exit 0 in
   let cons = let b = Buffer.create 64 in (try while true do Buffer.add_channel b stdin 1 done with End_of_file -> ()); Buffer.contents b in
   let ncons = Stdlib.String.length cons in
   (* stream files simin<k> of the working directory, as HexSimIO opens them *)
@@ -159,6 +164,7 @@ let run_main () =
   let marks = Buffer.create 256 and out = Buffer.create 256 in
   let nout = ref 0 in
   let fin = ref "" and rc = ref 0 in
+  let fouts = Array.init 8 (fun _ -> Buffer.create 16) in
   let modeldiff = ref (-1) in
   while !fin = "" do
     if max_cycles > 0 && not (SimModel.guard (zi max_cycles) !sm) then (fin := "limit"; rc := iz (!sm).SimModel.s_exit) else
@@ -180,6 +186,7 @@ let run_main () =
         (match ev with
          | Isa.Exit c -> fin := "exit"; rc := iz (Isa.signed c)
          | Isa.Write (b, stt) -> if Isa.is_console stt then (incr nout; Buffer.add_string out (P.sprintf " %d" (iz b)))
+                                 else (let k = iz (Isa.file_index stt) in if k >= 0 && k < 8 then Buffer.add_char fouts.(k) (Char.chr (iz b land 255)))
          | _ -> ())
   done;
   P.printf "END %s rc=%d steps=%d h=%d pc=%d a=%d b=%d o=%d\n" !fin !rc !steps !h
@@ -187,6 +194,7 @@ let run_main () =
   P.printf "MARKS%s\n" (Buffer.contents marks);
   P.printf "OUT %d%s\n" !nout (Buffer.contents out);
   P.printf "CONSUMED %d\n" (ncons - SL.length !inp.Isa.console);
+  Array.iteri (fun k b -> if Buffer.length b > 0 then (P.printf "FILE %d" k; Stdlib.String.iter (fun c -> P.printf " %d" (Char.code c)) (Buffer.contents b); P.printf "\n")) fouts;
   if !modeldiff >= 0 then P.printf "MODELDIFF %d\n" !modeldiff
 
 
@@ -223,7 +231,7 @@ let trace_main () =
   let fbytes = SL.init (Stdlib.String.length file) (fun i -> zi (Char.code (Stdlib.String.get file i))) in
   let (words_z, tab) = match Loader.load_file fbytes with
     | Some (ws, t) -> (ws, SL.map (fun (nm, o) -> (coq_of_ostring (Stdlib.String.concat "" (SL.map (fun b -> Stdlib.String.make 1 (Char.chr (iz b))) nm)), o)) t)
-    | None -> (SL.map zi (image_words file), SL.map (fun (n, o) -> (coq_of_ostring n, zi o)) (parse_symtab file)) in
+    | None -> P.printf "LOADREJECT\n"; exit 0 in
   let words = SL.map iz words_z in
   let cons = let b = Buffer.create 64 in (try while true do Buffer.add_channel b stdin 1 done with End_of_file -> ()); Buffer.contents b in
   let inp = ref { Isa.console = SL.init (Stdlib.String.length cons) (fun i -> zi (Char.code (Stdlib.String.get cons i))); Isa.files = (fun _ -> []) } in
